@@ -121,8 +121,8 @@ def effective(entries, action):
 
 def cases(rng, tier):
     nconf = 14 if tier == "thorough" else 5
-    for _ in range(nconf):
-        acc = "allow" if rng.chance(4, 5) else "deny"
+    for ci in range(nconf):
+        acc = "deny" if ci == 1 else ("allow" if rng.chance(5, 6) else "deny")
         tok, entries = gen_conf(rng)
         for action in PUBLIC + PWREQ + DANGEROUS + [b"nosuchaction"]:
             eff = effective(entries, action)
